@@ -127,9 +127,16 @@ Definition outcome_eqb (a b : outcome) : bool :=
   | _, _ => false
   end.
 
-(* was one of the seven gated CryptographyEngine methods entered? *)
-Definition crypto_called (o : outcome) : bool :=
-  match o with OK | CryptoFail | CrashAfter => true | _ => false end.
+(* operations that end in one of the seven gated CryptographyEngine methods
+   (encrypt decrypt sign verify_signature mac derive_key wrap_key) *)
+Definition gated (o : op) : bool :=
+  match o with
+  | Encrypt _ _ | Decrypt _ _ | Sign _ _ | SignatureVerify _ _ | MAC _ _ _ | DeriveKey _ _ | GetWrap _ _ => true
+  | _ => false
+  end.
+(* was that method entered? *)
+Definition crypto_called (o : op) (r : outcome) : bool :=
+  gated o && match r with OK | CryptoFail | CrashAfter => true | _ => false end.
 
 Definition is_active (o : obj) : bool :=
   match ost o with Some Active => true | _ => false end.
